@@ -10,7 +10,7 @@ Definition resumable (clock : Z) (s : cstate) : Prop :=
 Definition parked_ok (x : pw) (w : nat) : Prop :=
   exists k m, get_worker x w = Some k /\ live k = true /\ k_dead k = false /\ k_tpool k = 0%nat /\
     resumable (pw_clock x) (k_st k) /\ pmode (k_st k) = Some m /\
-    match k_task k with Some (_, rest) => body_from m rest = true | None => m = MRun /\ k_st k = Ready end.
+    match k_task k with Some (_, rest) => body_from m rest = true | None => m = MRun /\ (k_st k = Ready \/ k_st k = Suspend 0 0) end.
 
 (** what the pass needs to know to put the worker back *)
 Definition placed (x' : pw) (w : nat) (r : res) : Prop :=
@@ -18,12 +18,14 @@ Definition placed (x' : pw) (w : nat) (r : res) : Prop :=
     ((live k = false /\ exists v, k_st k = Complete v) \/
      (live k = true /\ k_dead k = false /\ k_tpool k = 0%nat /\ exists i rest, k_task k = Some (i, rest) /\
        ((exists ts, k_st k = Suspend 0 ts /\ body_from MRun rest = true) \/
-        (exists y n ts, k_st k = Syscall y n (SSuspend ts) /\ body_from (MWoken n) rest = true)))).
+        (exists y n ts, k_st k = Syscall y n (SSuspend ts) /\ body_from (MWoken n) rest = true))) \/
+     (live k = true /\ k_dead k = false /\ k_tpool k = 0%nat /\ k_task k = None /\ k_st k = Suspend 0 0)).
 
 Section Pass.
 Variable mx : Z.
+Variable kp : Z.
 
-Lemma J_add_defect tnt x d h t dd : J mx tnt x d h t -> J mx tnt (add_defect x dd) d h t.
+Lemma J_add_defect tnt x d h t dd : J mx kp tnt x d h t -> J mx kp tnt (add_defect x dd) d h t.
 Proof.
   intros [HQ HL HP HS HT HR HW]. constructor; autorewrite with pw; try assumption.
   destruct HP as [P1 P2 P3 P4 P5 P6 P7 P8 P9 P10 P11 P12]. constructor; autorewrite with pw; assumption.
@@ -38,9 +40,9 @@ Proof.
   injection Hv as <-. congruence.
 Qed.
 
-Lemma J_set_req0 tnt x d h t : J mx tnt x d h t -> J mx tnt (set_req x [] []) d h t.
+Lemma J_set_req0 tnt x d h t : J mx kp tnt x d h t -> J mx kp tnt (set_req x [] []) d h t.
 Proof.
-  intro HJ. pose proof (J_set_req mx tnt x d h t [] HJ) as H. rewrite (jp_cn _ _ _ (j_p _ _ _ _ _ _ _ HJ)) in H. exact H.
+  intro HJ. pose proof (J_set_req mx kp tnt x d h t [] HJ) as H. rewrite (jp_cn _ _ _ _ (j_p _ _ _ _ _ _ _ _ HJ)) in H. exact H.
 Qed.
 
 Lemma pop_front_nil {A} (d : A) : pop_front d (@nil A) = (d, []).
@@ -51,36 +53,69 @@ Proof. destruct l as [|a [|b l]]; cbn; intros; try reflexivity. lia. Qed.
 
 Definition sys_cost (r : res) : Z := match r with ROk (Syscall _ _ _) => 2 | _ => 0 end.
 
+Lemma ipot_set_live x w k new :
+  get_worker x w = Some k -> live k = true -> terminal new = false -> ipot mx kp (upd_worker x w (with_st k new)) = ipot mx kp x.
+Proof.
+  intros Hk Hl Hn. unfold ipot, phix, pfx. autorewrite with pw. unfold get_worker in Hk.
+  rewrite (phimax_set_nth kp _ _ w k (with_st k new) Hk); [reflexivity | | reflexivity].
+  unfold live in *. cbn [with_st k_st]. rewrite Hn, Hl. reflexivity.
+Qed.
+
 (** the three ways [k_finish] ends *)
 Lemma k_finish_J tnt x0 x2 d w t evs out :
-  J mx tnt x2 d (Some w) t -> quiet_off t -> G mx x2 (Some w) -> pw_cancel_cos x2 = pw_cancel_cos x0 ->
+  J mx kp tnt x2 d (Some w) t -> quiet_off t -> G mx x2 (Some w) -> pw_cancel_cos x2 = pw_cancel_cos x0 ->
   wl_post x2 w out -> out <> WFuel ->
   exists x' r evs', k_finish x2 w evs out = (x', r, evs ++ evs') /\
-     J mx tnt x' d (Some w) (fold_left pev evs' t) /\ G mx x' None /\ pw_ts x' = [] /\
+     J mx kp tnt x' d (Some w) (fold_left pev evs' t) /\ G mx x' None /\ pw_ts x' = [] /\
      pw_cancel_cos x' = pw_cancel_cos x0 /\ placed x' w r /\ rho x' + 1 + sys_cost r <= rho x2 + wl_cost out /\
-     pw_clock x' = pw_clock x2.
+     pw_clock x' = pw_clock x2 /\
+     (out = WYield -> idle_yield x2 w -> rho x' = rho x2 /\ sys_cost r = 0 /\ ipot mx kp x' = ipot mx kp x2).
 Proof.
   intros HJ Hq HG Ecc Hpost Hnf. unfold k_finish. destruct out; cbn [wl_post] in Hpost; try contradiction.
   - (* yield *)
-    destruct Hpost as (k & i & rest & Hk & Hl & Hdead & Htp & Hts & Htask & [[Est Hb]|(y & n & ts & Est & Hb)]).
-    + rewrite Hk, Est. rewrite (jp_cn _ _ _ (j_p _ _ _ _ _ _ _ HJ)). cbn [pop_front].
+    destruct Hpost as [(k & i & rest & Hk & Hl & Hdead & Htp & Hts & Htask & Hcase)|Hidle].
+    2:{ (* a plain idle yield *)
+      destruct Hidle as (k & Hk & Hl & Hdead & Htp & Hts & Htask & Est & Hnil).
+      rewrite Hk, Est. rewrite (jp_cn _ _ _ _ (j_p _ _ _ _ _ _ _ _ HJ)). cbn [pop_front]. rewrite Hts. cbn [pop_front].
+      pose proof (J_set_req0 tnt x2 d (Some w) t HJ) as HJ'.
+      assert (get_worker (set_req x2 [] []) w = Some k) as Hk' by exact Hk.
+      destruct (J_k_change mx kp tnt _ d w t k (Suspend 0 0) HJ' Hq Hk' Hl ltac:(discriminate))
+        as (x3 & Ekc & HJ3 & Hm3 & Hk3 & HG3a & _ & _).
+      pose proof (k_change_quiet (set_req x2 [] []) w k (Suspend 0 0) (jp_pools _ _ _ _ (j_p _ _ _ _ _ _ _ _ HJ'))
+                    (jp_cur _ _ _ _ (j_p _ _ _ _ _ _ _ _ HJ')) Hk' (jq_t _ _ (j_q _ _ _ _ _ _ _ _ HJ')) Hnil eq_refl) as Equiet.
+      rewrite Ekc in Equiet. injection Equiet as Ex3.
+      assert (rho x3 = rho x2) as Er3.
+      { rewrite Ex3. change (rho x2) with (rho (set_req x2 [] [])). apply (rho_upd_worker_same _ w k _ Hk'); [|reflexivity].
+        unfold live. cbn [with_st k_st terminal]. rewrite Est. reflexivity. }
+      assert (ipot mx kp x3 = ipot mx kp x2) as Ei3.
+      { rewrite Ex3. change (ipot mx kp x2) with (ipot mx kp (set_req x2 [] [])). apply ipot_set_live; [exact Hk' | exact Hl | reflexivity]. }
+      rewrite Ekc. eexists _, _, _. split; [reflexivity|]. cbn [fold_left].
+      split; [exact HJ3|]. split; [apply HG3a; reflexivity|]. destruct Hm3 as [M1 M2 M3 M4 M5 M6].
+      split; [rewrite M2; reflexivity|]. split; [rewrite M1; exact Ecc|]. split.
+      { exists (with_st k (Suspend 0 0)). split; [exact Hk3|]. split; [reflexivity|]. right. right.
+        split; [reflexivity|]. split; [exact Hdead|]. split; [exact Htp|]. split; [exact Htask | reflexivity]. }
+      split; [cbn [sys_cost wl_cost]; lia|]. split; [rewrite M4; reflexivity|].
+      intros _ _. split; [exact Er3|]. split; [reflexivity | exact Ei3]. }
+    destruct Hcase as [[Est Hb]|(y & n & ts & Est & Hb)].
+    + rewrite Hk, Est. rewrite (jp_cn _ _ _ _ (j_p _ _ _ _ _ _ _ _ HJ)). cbn [pop_front].
       destruct (pop_front 0 (pw_ts x2)) as [ts ts'] eqn:Ep.
       assert (ts' = []) as -> by (pose proof (pop_front_le1 0 _ Hts) as H; rewrite Ep in H; exact H).
       pose proof (J_set_req0 tnt x2 d (Some w) t HJ) as HJ'.
       assert (get_worker (set_req x2 [] []) w = Some k) as Hk' by exact Hk.
-      destruct (J_k_change mx tnt _ d w t k (Suspend 0 ts) HJ' Hq Hk' Hl ltac:(discriminate))
+      destruct (J_k_change mx kp tnt _ d w t k (Suspend 0 ts) HJ' Hq Hk' Hl ltac:(discriminate))
         as (x3 & Ekc & HJ3 & Hm3 & Hk3 & HG3a & _ & _).
-      destruct (k_change_rho (set_req x2 [] []) w k (Suspend 0 ts) x3 _ (jp_pools _ _ _ (j_p _ _ _ _ _ _ _ HJ))
-                  (jp_cur _ _ _ (j_p _ _ _ _ _ _ _ HJ)) Hk' Hl Ekc) as [Hr3 _]. cbn [terminal creator_grows] in Hr3.
+      destruct (k_change_rho (set_req x2 [] []) w k (Suspend 0 ts) x3 _ (jp_pools _ _ _ _ (j_p _ _ _ _ _ _ _ _ HJ))
+                  (jp_cur _ _ _ _ (j_p _ _ _ _ _ _ _ _ HJ)) Hk' Hl Ekc) as [Hr3 _]. cbn [terminal creator_grows] in Hr3.
       change (rho (set_req x2 [] [])) with (rho x2) in Hr3.
       rewrite Ekc. eexists _, _, _. split; [reflexivity|]. cbn [fold_left].
       split; [exact HJ3|]. split; [apply HG3a; reflexivity|]. destruct Hm3 as [M1 M2 M3 M4 M5 M6].
       split; [rewrite M2; reflexivity|]. split; [rewrite M1; exact Ecc|]. split.
-      * exists (with_st k (Suspend 0 ts)). split; [exact Hk3|]. split; [reflexivity|]. right.
+      * exists (with_st k (Suspend 0 ts)). split; [exact Hk3|]. split; [reflexivity|]. right. left.
         split; [reflexivity|]. split; [exact Hdead|]. split; [exact Htp|]. exists i, rest. split; [exact Htask|].
         left. exists ts. split; [reflexivity | exact Hb].
-      * split; [cbn [sys_cost wl_cost]; lia | rewrite M4; reflexivity].
-    + rewrite Hk, Est. rewrite (jp_cn _ _ _ (j_p _ _ _ _ _ _ _ HJ)). cbn [pop_front].
+      * split; [cbn [sys_cost wl_cost]; lia|]. split; [rewrite M4; reflexivity|].
+        intros _ (k2 & Hk2 & _ & _ & _ & _ & Ht2 & _). rewrite Hk in Hk2. injection Hk2 as <-. congruence.
+    + rewrite Hk, Est. rewrite (jp_cn _ _ _ _ (j_p _ _ _ _ _ _ _ _ HJ)). cbn [pop_front].
       destruct (pop_front 0 (pw_ts x2)) as [ts0 ts'] eqn:Ep.
       assert (ts' = []) as -> by (pose proof (pop_front_le1 0 _ Hts) as H; rewrite Ep in H; exact H).
       eexists _, _, []. rewrite app_nil_r. split; [reflexivity|]. cbn [fold_left].
@@ -88,33 +123,42 @@ Proof.
       { eapply (G_frame mx x2); [reflexivity | reflexivity | reflexivity|].
         eapply G_drop_hole; [exact HG | exact Hk | congruence | rewrite Est; reflexivity]. }
       split; [reflexivity|]. split; [exact Ecc|]. split.
-      * exists k. split; [exact Hk|]. split; [rewrite Est; reflexivity|]. right.
+      * exists k. split; [exact Hk|]. split; [rewrite Est; reflexivity|]. right. left.
         split; [exact Hl|]. split; [exact Hdead|]. split; [exact Htp|]. exists i, rest. split; [exact Htask|].
         right. exists y, n, ts. split; [exact Est | exact Hb].
-      * split; [cbn [sys_cost wl_cost]; change (rho (set_req x2 [] [])) with (rho x2); lia | reflexivity].
+      * split; [cbn [sys_cost wl_cost]; change (rho (set_req x2 [] [])) with (rho x2); lia|]. split; [reflexivity|].
+        intros _ (k2 & Hk2 & _ & _ & _ & _ & Ht2 & _). rewrite Hk in Hk2. injection Hk2 as <-. congruence.
   - (* the worker exits *)
     destruct Hpost as (k & Hk & Hl & Est & Htask & Hdead & Htp & Hnil & Hts).
     rewrite Hk, Est. unfold k_dead_mark. rewrite Hk.
-    assert (J mx tnt (upd_worker x2 w (with_dead k)) d (Some w) t) as HJ'.
-    { apply (J_hole_upd mx tnt x2 d w t k (with_dead k) HJ Hk); [reflexivity | reflexivity|].
+    assert (J mx kp tnt (upd_worker x2 w (with_dead k)) d (Some w) t) as HJ'.
+    { apply (J_hole_upd mx kp tnt x2 d w t k (with_dead k) HJ Hk); [reflexivity | reflexivity | reflexivity|].
       intros i' rest' E. cbn [with_dead k_task] in E. congruence. }
     assert (get_worker (upd_worker x2 w (with_dead k)) w = Some (with_dead k)) as Hk'.
     { apply get_worker_upd_worker_same. eapply get_worker_lt, Hk. }
-    destruct (J_k_change mx tnt _ d w t (with_dead k) (Complete (-1)) HJ' Hq Hk' Hl ltac:(intros _; left; exact Htask))
+    destruct (J_k_change mx kp tnt _ d w t (with_dead k) (Complete (-1)) HJ' Hq Hk' Hl ltac:(intros _; left; exact Htask))
       as (x3 & Ekc & HJ3 & Hm3 & Hk3 & _ & _ & HG3c).
-    destruct (k_change_rho (upd_worker x2 w (with_dead k)) w (with_dead k) (Complete (-1)) x3 _ (jp_pools _ _ _ (j_p _ _ _ _ _ _ _ HJ'))
-                (jp_cur _ _ _ (j_p _ _ _ _ _ _ _ HJ')) Hk' Hl Ekc) as [Hr3 _]. cbn [terminal creator_grows] in Hr3.
+    destruct (k_change_rho (upd_worker x2 w (with_dead k)) w (with_dead k) (Complete (-1)) x3 _ (jp_pools _ _ _ _ (j_p _ _ _ _ _ _ _ _ HJ'))
+                (jp_cur _ _ _ _ (j_p _ _ _ _ _ _ _ _ HJ')) Hk' Hl Ekc) as [Hr3 _]. cbn [terminal creator_grows] in Hr3.
     assert (rho (upd_worker x2 w (with_dead k)) = rho x2) as Er by (apply (rho_upd_worker_same x2 w k (with_dead k) Hk); reflexivity).
     rewrite Ekc. eexists _, _, _. split; [reflexivity|]. cbn [fold_left]. destruct Hm3 as [M1 M2 M3 M4 M5 M6].
     split; [exact HJ3|]. split; [apply HG3c; exact Hnil|]. split; [rewrite M2; exact Hts|]. split; [rewrite M1; exact Ecc|]. split.
     + exists (with_st (with_dead k) (Complete (-1))). split; [exact Hk3|]. split; [reflexivity|]. left.
       split; [reflexivity | exists (-1); reflexivity].
-    + split; [cbn [sys_cost wl_cost]; lia | rewrite M4; reflexivity].
+    + split; [cbn [sys_cost wl_cost]; lia|]. split; [rewrite M4; reflexivity | discriminate].
 Qed.
 
 Definition resumed_ok tnt (x0 : pw) (d : sdata) (w : nat) (t : potr) (x' : pw) (r : res) (evs : list ev) : Prop :=
-  J mx tnt x' d (Some w) (fold_left pev evs t) /\ G mx x' None /\ pw_ts x' = [] /\
-  pw_cancel_cos x' = pw_cancel_cos x0 /\ placed x' w r /\ rho x' + 1 + sys_cost r <= rho x0 /\ pw_clock x0 <= pw_clock x'.
+  J mx kp tnt x' d (Some w) (fold_left pev evs t) /\ G mx x' None /\ pw_ts x' = [] /\
+  pw_cancel_cos x' = pw_cancel_cos x0 /\ placed x' w r /\
+  (low kp x' ->
+   rho x' + 1 + sys_cost r <= rho x0 \/ (0 < kp /\ rho x' <= rho x0 /\ sys_cost r = 0 /\ idle_dec mx kp x0 x')) /\
+  pw_clock x0 <= pw_clock x'.
+
+(** the other way a resumption ends: a nap hit the end of time ([u64::MAX]), the worker naps for
+    ever; what was observed so far still satisfies the oracle's safety flags *)
+Definition resume_div tnt (t : potr) (x' : pw) (r : res) (evs : list ev) : Prop :=
+  r = RBad /\ pw_spin x' = true /\ ~ low kp x' /\ exists ws, JW ws (fold_left pev evs t) tnt.
 
 Lemma rho_k_defect x w : rho (k_defect x w) = rho x.
 Proof. unfold k_defect. destruct (Nat.eqb _ _); reflexivity. Qed.
@@ -122,61 +166,83 @@ Proof. unfold k_defect. destruct (Nat.eqb _ _); reflexivity. Qed.
 Lemma wfuel_k_defect x w : wfuel (k_defect x w) = wfuel x.
 Proof. unfold k_defect. destruct (Nat.eqb _ _); reflexivity. Qed.
 
+Lemma ipot_k_defect x w : ipot mx kp (k_defect x w) = ipot mx kp x.
+Proof. unfold k_defect. destruct (Nat.eqb _ _); reflexivity. Qed.
+
+Lemma k_change_running x w k x1 e :
+  get_worker x w = Some k -> k_change x w Running = (x1, e) -> x1 = upd_worker x w (with_st k Running).
+Proof. intros Hk E. unfold k_change in E. rewrite Hk in E. injection E as <- _. reflexivity. Qed.
+
 Lemma k_resume_J tnt x d w t :
-  J mx tnt x d (Some w) t -> quiet_off t -> G mx x (Some w) -> parked_ok x w -> ~ In w (pw_cancel_cos x) -> pw_ts x = [] ->
-  exists x' r evs, k_resume x w = (x', r, evs) /\ resumed_ok tnt x d w t x' r evs.
+  J mx kp tnt x d (Some w) t -> quiet_off t -> G mx x (Some w) -> parked_ok x w -> ~ In w (pw_cancel_cos x) -> pw_ts x = [] ->
+  exists x' r evs, k_resume x w = (x', r, evs) /\ (resumed_ok tnt x d w t x' r evs \/ resume_div tnt t x' r evs).
 Proof.
   intros HJ Hq HG (k & m & Hk & Hl & Hdead & Htp & Hres & Hpm & Hbody) Hncc Hts.
   set (xd := k_defect x w).
-  assert (J mx tnt xd d (Some w) t /\ get_worker xd w = Some k /\ G mx xd (Some w) /\ pw_cancel_cos xd = pw_cancel_cos x /\
+  assert (J mx kp tnt xd d (Some w) t /\ get_worker xd w = Some k /\ G mx xd (Some w) /\ pw_cancel_cos xd = pw_cancel_cos x /\
           pw_ts xd = [] /\ pw_clock xd = pw_clock x) as (HJd & Hkd & HGd & Eccd & Htsd & Ecd).
   { unfold xd, k_defect. destruct (Nat.eqb _ _); [auto 10|].
     split; [apply J_add_defect, HJ|]. split; [exact Hk|]. split; [|auto].
     eapply (G_frame mx x); [reflexivity | reflexivity | reflexivity | exact HG]. }
   assert (rho xd = rho x) as Erd by apply rho_k_defect.
+  assert (ipot mx kp xd = ipot mx kp x) as Eid by apply ipot_k_defect.
   rewrite (k_resume_eq x w k Hkd). cbv zeta. fold xd.
   (* the part after the first change of state *)
   assert (forall x1 ev1 m1,
-            J mx tnt x1 d (Some w) (fold_left pev ev1 t) -> G mx x1 (Some w) -> pw_cancel_cos x1 = pw_cancel_cos x ->
-            pw_ts x1 = [] -> rho x1 <= rho x -> pw_clock x <= pw_clock x1 ->
+            J mx kp tnt x1 d (Some w) (fold_left pev ev1 t) -> G mx x1 (Some w) -> pw_cancel_cos x1 = pw_cancel_cos x ->
+            pw_ts x1 = [] -> rho x1 <= rho x -> ipot mx kp x1 <= ipot mx kp x -> pw_clock x <= pw_clock x1 ->
             forall k1, get_worker x1 w = Some k1 -> live k1 = true -> k_dead k1 = false -> k_tpool k1 = 0%nat ->
             imode (k_st k1) = Some m1 -> match k_task k1 with Some (_, rest) => body_from m1 rest = true | None => m1 = MRun end ->
             exists x' r evs, (let '(x2, ev2, out) := wloop (wfuel x1) x1 w ev1 in k_finish x2 w ev2 out) = (x', r, evs) /\
-                             resumed_ok tnt x d w t x' r evs) as Htail.
-  { intros x1 ev1 m1 HJ1 HG1 Ecc1 Hts1 Hr1 Hc1 k1 Hk1 Hl1 Hd1 Htp1 Him1 Hb1.
-    destruct (wloop_J mx (wfuel x1) tnt x1 d w ev1 (fold_left pev ev1 t) HJ1 (quiet_off_fold _ _ Hq) HG1
+                             (resumed_ok tnt x d w t x' r evs \/ resume_div tnt t x' r evs)) as Htail.
+  { intros x1 ev1 m1 HJ1 HG1 Ecc1 Hts1 Hr1 Hi1 Hc1 k1 Hk1 Hl1 Hd1 Htp1 Him1 Hb1.
+    destruct (wloop_J mx kp (wfuel x1) tnt x1 d w ev1 (fold_left pev ev1 t) HJ1 (quiet_off_fold _ _ Hq) HG1
                 ltac:(eapply hole_ok_intro; eassumption) ltac:(rewrite Ecc1; exact Hncc) Hts1)
-      as (x2 & evs & out & Ew & HJ2 & HG2 & Ecc2 & _ & Hc2 & Hpost & Hr2 & Hnf).
+      as (x2 & evs & out & Ew & HJ2 & HG2 & Ecc2 & _ & Hc2 & Hpost & HM).
     rewrite Ew.
-    pose proof (Hnf k1 Hk1 (mu_bound mx tnt x1 d (Some w) _ w k1 HJ1 Hk1 Hl1)) as Hnf'.
-    destruct (k_finish_J tnt x x2 d w (fold_left pev evs (fold_left pev ev1 t)) (ev1 ++ evs) out HJ2
-                (quiet_off_fold _ _ (quiet_off_fold _ _ Hq)) HG2 ltac:(congruence) Hpost Hnf')
-      as (x' & r & evs' & Ef & H1 & H2 & H3 & H4 & H5 & H6 & H7).
-    exists x', r, ((ev1 ++ evs) ++ evs'). split; [exact Ef|]. unfold resumed_ok. rewrite !fold_pev_app.
-    repeat (split; [assumption|]). split; lia. }
+    pose proof (mu2_bound mx kp tnt x1 d (Some w) _ w k1 HJ1 Hk1 Hl1) as Hmub.
+    assert (out = WFuel \/ out <> WFuel) as [->|Hnf'] by (destruct out; auto; right; discriminate).
+    - (* out of fuel: only when a nap hit the end of time *)
+      exists (set_spin x2), RBad, (ev1 ++ evs). split; [reflexivity|]. right.
+      split; [reflexivity|]. split; [reflexivity|]. split.
+      + intro Hlow2. change (low kp (set_spin x2)) with (low kp x2) in Hlow2.
+        destruct (HM Hlow2) as [_ Hnf]. apply (Hnf k1 Hk1 Hmub). reflexivity.
+      + exists (pw_workers x2). rewrite fold_pev_app. apply (j_w _ _ _ _ _ _ _ _ HJ2).
+    - destruct (k_finish_J tnt x x2 d w (fold_left pev evs (fold_left pev ev1 t)) (ev1 ++ evs) out HJ2
+                  (quiet_off_fold _ _ (quiet_off_fold _ _ Hq)) HG2 ltac:(congruence) Hpost Hnf')
+        as (x' & r & evs' & Ef & H1 & H2 & H3 & H4 & H5 & H6 & H7 & H8).
+      exists x', r, ((ev1 ++ evs) ++ evs'). split; [exact Ef|]. left. unfold resumed_ok. rewrite !fold_pev_app.
+      repeat (split; [assumption|]). split; [|lia]. intros Hlow. assert (low kp x2) as Hlow2 by (unfold low in *; rewrite <- H7; exact Hlow). destruct (HM Hlow2) as [HD _].
+      destruct HD as [HA|(Hidle & Ho & Hkpos & Hr & Hdec)]; [left; lia|].
+      destruct (H8 Ho Hidle) as (E1 & E2 & E3).
+      destruct (Z_lt_le_dec (rho x2) (rho x1)) as [Hlt|Hge]; [left; lia|].
+      right. split; [exact Hkpos|]. split; [lia|]. split; [exact E2|]. unfold idle_dec in *. specialize (Hdec ltac:(lia)). lia. }
   destruct Hres as [Est|[(y & ts & Est & Hle)|(y & n & Est)]]; rewrite Est in *.
   - (* Ready *)
     cbn [tr_running].
-    destruct (J_k_change mx tnt xd d w t k Running HJd Hq Hkd Hl ltac:(discriminate))
+    destruct (J_k_change mx kp tnt xd d w t k Running HJd Hq Hkd Hl ltac:(discriminate))
       as (x1 & Ekc & HJ1 & Hm1 & Hk1 & _ & HG1b & _).
-    destruct (k_change_rho xd w k Running x1 _ (jp_pools _ _ _ (j_p _ _ _ _ _ _ _ HJd)) (jp_cur _ _ _ (j_p _ _ _ _ _ _ _ HJd)) Hkd Hl Ekc) as [Hr1 _].
+    destruct (k_change_rho xd w k Running x1 _ (jp_pools _ _ _ _ (j_p _ _ _ _ _ _ _ _ HJd)) (jp_cur _ _ _ _ (j_p _ _ _ _ _ _ _ _ HJd)) Hkd Hl Ekc) as [Hr1 _].
     cbn [terminal creator_grows] in Hr1.
+    pose proof (k_change_running xd w k x1 _ Hkd Ekc) as Ex1.
+    assert (ipot mx kp x1 = ipot mx kp xd) as Ei1 by (rewrite Ex1; apply ipot_set_live; [exact Hkd | exact Hl | reflexivity]).
     rewrite Ekc, Hdead. rewrite Est. destruct Hm1 as [M1 M2 M3 M4 M5 M6].
-    eapply (Htail x1 _ MRun); [exact HJ1 | apply HG1b; auto | congruence | congruence | lia | rewrite M4, Ecd; apply Z.le_refl | exact Hk1 | reflexivity | exact Hdead | exact Htp | reflexivity|].
+    eapply (Htail x1 _ MRun); [exact HJ1 | apply HG1b; auto | congruence | congruence | lia | lia | rewrite M4, Ecd; apply Z.le_refl | exact Hk1 | reflexivity | exact Hdead | exact Htp | reflexivity|].
     cbn [with_st k_task]. cbn [pmode] in Hpm. injection Hpm as <-. destruct (k_task k) as [[i rest]|]; [exact Hbody | apply Hbody].
   - (* Suspend, due *)
     cbn [tr_running]. rewrite Ecd. assert (ts <=? pw_clock x = true) as -> by lia.
-    destruct (J_k_change mx tnt xd d w t k Running HJd Hq Hkd Hl ltac:(discriminate))
+    destruct (J_k_change mx kp tnt xd d w t k Running HJd Hq Hkd Hl ltac:(discriminate))
       as (x1 & Ekc & HJ1 & Hm1 & Hk1 & _ & HG1b & _).
-    destruct (k_change_rho xd w k Running x1 _ (jp_pools _ _ _ (j_p _ _ _ _ _ _ _ HJd)) (jp_cur _ _ _ (j_p _ _ _ _ _ _ _ HJd)) Hkd Hl Ekc) as [Hr1 _].
+    destruct (k_change_rho xd w k Running x1 _ (jp_pools _ _ _ _ (j_p _ _ _ _ _ _ _ _ HJd)) (jp_cur _ _ _ _ (j_p _ _ _ _ _ _ _ _ HJd)) Hkd Hl Ekc) as [Hr1 _].
     cbn [terminal creator_grows] in Hr1.
+    pose proof (k_change_running xd w k x1 _ Hkd Ekc) as Ex1.
+    assert (ipot mx kp x1 = ipot mx kp xd) as Ei1 by (rewrite Ex1; apply ipot_set_live; [exact Hkd | exact Hl | reflexivity]).
     rewrite Ekc, Hdead. rewrite Est. destruct Hm1 as [M1 M2 M3 M4 M5 M6].
-    eapply (Htail x1 _ MRun); [exact HJ1 | apply HG1b; auto | congruence | congruence | lia | rewrite M4, Ecd; apply Z.le_refl | exact Hk1 | reflexivity | exact Hdead | exact Htp | reflexivity|].
-    cbn [with_st k_task]. cbn [pmode] in Hpm. injection Hpm as <-. destruct (k_task k) as [[i rest]|]; [exact Hbody|].
-    destruct Hbody as [_ Hb]. discriminate.
+    eapply (Htail x1 _ MRun); [exact HJ1 | apply HG1b; auto | congruence | congruence | lia | lia | rewrite M4, Ecd; apply Z.le_refl | exact Hk1 | reflexivity | exact Hdead | exact Htp | reflexivity|].
+    cbn [with_st k_task]. cbn [pmode] in Hpm. injection Hpm as <-. destruct (k_task k) as [[i rest]|]; [exact Hbody | apply Hbody].
   - (* woken from a syscall suspension *)
     cbn [tr_running]. rewrite Hdead. cbn [pmode] in Hpm. injection Hpm as <-.
-    eapply (Htail xd [] (MWoken n)); [exact HJd | exact HGd | exact Eccd | exact Htsd | lia | rewrite Ecd; apply Z.le_refl | exact Hkd | exact Hl | exact Hdead | exact Htp | rewrite Est; reflexivity|].
+    eapply (Htail xd [] (MWoken n)); [exact HJd | exact HGd | exact Eccd | exact Htsd | lia | lia | rewrite Ecd; apply Z.le_refl | exact Hkd | exact Hl | exact Hdead | exact Htp | rewrite Est; reflexivity|].
     destruct (k_task k) as [[i rest]|]; [exact Hbody|]. destruct Hbody as [Hb _]. discriminate.
 Qed.
 
